@@ -95,6 +95,15 @@ pub fn run(
                 }
             }
 
+            // the spur route must not return to a vertex the root path has already visited,
+            // otherwise root + spur contains a loop: cut every edge that enters one
+            for root_edge_traversal in root_path.iter() {
+                let root_vertex_id = si
+                    .directed_graph
+                    .src_vertex_id(&root_edge_traversal.edge_id)?;
+                cut_edges.extend(si.directed_graph.in_edges(&root_vertex_id));
+            }
+
             // execute a new path search using a wrapped frontier model to exclude edges
             let yens_frontier = EdgeCutFrontierModel::new(si.frontier_model.clone(), cut_edges);
             let yens_si = SearchInstance {
